@@ -16,7 +16,7 @@ class SchedAbort(BaseException):
 
 
 class Sched:
-    def __init__(self, forced=True, timeout=4.0, seed=0):
+    def __init__(self, forced=True, timeout=20.0, seed=0):
         self.forced = forced
         self.timeout = timeout
         self.cv = threading.Condition()
